@@ -50,7 +50,9 @@ THEOREMS = ["Cppcheck.SevDecide.error_implies_definite", "Cppcheck.SevDecide.zer
             "Cppcheck.SevDecide.zerodiv_trigger_is_ub", "Cppcheck.SevDecide.shift_trigger_is_ub", "Cppcheck.SevDecide.overflow_trigger_is_ub",
             "Cppcheck.LeakStraight.leak_reports_sound", "Cppcheck.LeakStraight.leak_reports_sound_counterexample",
             "Cppcheck.LeakStraight.clean_program_no_reports", "Cppcheck.LeakStraight.leak_automaton_exact",
-            "Cppcheck.LeakStraight.leak_automaton_exact_counterexample"]
+            "Cppcheck.LeakStraight.leak_automaton_exact_counterexample", "Cppcheck.LibGroups.loadBlock_registers",
+            "Cppcheck.LibGroups.loadBlock_keeps", "Cppcheck.LibGroups.groupFor_joins", "Cppcheck.LibGroups.shared_dealloc_same_group_partial",
+            "Cppcheck.LibGroups.groups_not_closure_counterexample"]
 MODULES = ["Cppcheck.Props.C04"]
 
 CACHE = os.path.join(core.VERIF, ".build", "cache", "c04")
@@ -697,6 +699,266 @@ def run_ubfree(ctx, res, n_safe, n_planted, nargs, cli_opts):
               "" if discarded <= max(2, len(fns) // 50) else "%d of %d generated functions were rejected by the sanitizers" % (discarded, len(fns)))
 
 
+# ================================================================================================================
+# allocation groups (Library::load) and the leak tie under generated user libraries
+# ================================================================================================================
+GROUP_LOOP_SHAPE = ('int allocationId = 0; for (const tinyxml2::XMLElement *memorynode = node->FirstChildElement(); memorynode; memorynode = '
+                    'memorynode->NextSiblingElement()) { if (strcmp(memorynode->Name(),"dealloc")==0) { const auto names = getnames(memorynode->GetText()); '
+                    'for (const auto& n : names) { const auto it = utils::as_const(mData->mDealloc).find(n); if (it != mData->mDealloc.end()) { '
+                    'allocationId = it->second.groupId; break; } } if (allocationId != 0) break; } } if (allocationId == 0) { if (nodename == "memory") { '
+                    'while (!ismemory(++mData->mAllocId)) {} } else { while (!isresource(++mData->mAllocId)) {} } allocationId = mData->mAllocId; }')
+GROUP_DEALLOC_SHAPE = ('} else if (memorynodename == "dealloc") { AllocFunc temp; temp.groupId = allocationId; temp.arg = memorynode->IntAttribute("arg", 1); '
+                       'for (const auto& n : names) mData->mDealloc[n] = temp;')
+
+
+def group_loop_problem():
+    """translator: the group-id lookup of Library::load (<memory> / <resource>) has the shape Cppcheck.LibGroups copies; '' = yes"""
+    t = open(os.path.join(core.REPO, "lib", "library.cpp"), encoding="utf-8").read()
+    try:
+        a = t.index("            // get allocationId to use..")
+        b = t.index("            // add alloc/dealloc/use functions..")
+        c = t.index('                } else if (memorynodename == "dealloc") {')
+        d = t.index('                } else if (memorynodename == "use")')
+    except ValueError:
+        return "lib/library.cpp: the <memory>/<resource> block of Library::load is not found"
+    got = re.sub(r"\s+", " ", re.sub(r"//[^\n]*", "", t[a:b])).strip()
+    if got != GROUP_LOOP_SHAPE:
+        k = next((i for i in range(min(len(got), len(GROUP_LOOP_SHAPE))) if got[i] != GROUP_LOOP_SHAPE[i]), min(len(got), len(GROUP_LOOP_SHAPE)))
+        return "Library::load: the allocationId lookup differs from the modelled loop at `%s` (modelled: `%s`)" % (got[k:k + 90], GROUP_LOOP_SHAPE[k:k + 90])
+    if re.sub(r"\s+", " ", t[c:d]).strip() != GROUP_DEALLOC_SHAPE:
+        return "Library::load: the registration of <dealloc> names differs from the modelled one"
+    return ""
+
+
+def cfg_blocks(path):
+    """<memory>/<resource> blocks of a library file in document order -> [dict(resource, allocs, deallocs=[[names]..])]"""
+    import xml.etree.ElementTree as ET
+    def names(t):
+        return [x.strip() for x in (t or "").split(",") if x.strip()]
+    out = []
+    for node in ET.parse(path).getroot():
+        if node.tag in ("memory", "resource"):
+            out.append(dict(resource=node.tag == "resource", allocs=[n for e in node if e.tag == "alloc" for n in names(e.text)],
+                            deallocs=[names(e.text) for e in node if e.tag == "dealloc"]))
+    return out
+
+
+def blocks_wire(blocks):
+    return " ".join("%s;%s;%s" % ("r" if b["resource"] else "m", ",".join(b["allocs"]) or "-", "|".join(",".join(d) for d in b["deallocs"])) for b in blocks)
+
+
+def closure_groups(blocks):
+    """the specification: functions declared in one block, or in blocks that share a deallocator name, belong together (union-find)"""
+    parent = {}
+    def find(x):
+        parent.setdefault(x, x)
+        while parent[x] != x:
+            parent[x] = parent[parent[x]]
+            x = parent[x]
+        return x
+    for b in blocks:
+        ds = [("d", n) for e in b["deallocs"] for n in e]
+        fs = [("a", n) for n in b["allocs"]] + ds
+        for f in fs[1:]:
+            parent[find(f)] = find(fs[0])
+        for f in fs:
+            find(f)
+    return find
+
+
+def gen_library(rng, std_blocks, k):
+    """a user library of 1..4 blocks with 1..3 <alloc> names and 1..3 <dealloc> elements; a block shares a deallocator name with at most
+    one existing group (an earlier block or std.cfg: free, fclose), in any <dealloc> element / position"""
+    blocks, uid = [], [0]
+    def fresh(pfx):
+        uid[0] += 1
+        return "%s%d_%d" % (pfx, k, uid[0])
+    pool = [["free"], ["fclose"]]       # deallocator names of existing groups, one list per group
+    for _ in range(rng.choice([1, 2, 2, 3, 4])):
+        elems = [[fresh("ud") for _ in range(rng.choice([1, 1, 2]))] for _ in range(rng.choice([1, 2, 2, 3]))]
+        mine = [n for e in elems for n in e]
+        if rng.random() < 0.65:
+            g = rng.randrange(len(pool))
+            shared = rng.choice(pool[g])
+            e = rng.randrange(len(elems))
+            elems[e].insert(rng.randrange(len(elems[e]) + 1), shared)
+            pool[g] += mine
+        else:
+            pool.append(mine)
+        blocks.append(dict(resource=rng.random() < 0.3, allocs=[fresh("ua") for _ in range(rng.choice([1, 1, 2, 3]))], deallocs=elems))
+    return blocks
+
+
+def library_text(blocks):
+    out = ['<?xml version="1.0"?>', '<def format="2">']
+    for b in blocks:
+        tag = "resource" if b["resource"] else "memory"
+        out.append("  <%s>" % tag)
+        for a in b["allocs"]:
+            out.append("    <alloc init=\"true\">%s</alloc>" % a)
+        for e in b["deallocs"]:
+            out.append("    <dealloc>%s</dealloc>" % ",".join(e))
+        out.append("  </%s>" % tag)
+    out.append("</def>")
+    return "\n".join(out) + "\n"
+
+
+STD_CALL = {"malloc": "malloc(10)", "calloc": "calloc(1, 10)", "fopen": 'fopen("/dev/null", "w")', "strdup": 'strdup("x")'}
+
+
+def typed_function(ops, name, decls):
+    """ops: (kind, x, y/function) ; a = alloc via function, f = free via function"""
+    nv = 1 + max([o[1] for o in ops if o[0] in "afu r".replace(" ", "")] + [max(o[1], o[2]) for o in ops if o[0] == "s"] + [0])
+    lines = ["char *%s(void)" % name, "{", "    " + " ".join("char *p%d;" % i for i in range(nv))]
+    for o in ops:
+        if o[0] == "a":
+            lines.append("    p%d = %s;" % (o[1], STD_CALL.get(o[2], o[2] + "()")))
+        elif o[0] == "f":
+            lines.append("    %s(p%d);" % (o[2], o[1]))
+        elif o[0] == "u":
+            lines.append("    *p%d = 1;" % o[1])
+        elif o[0] == "s":
+            lines.append("    p%d = p%d;" % (o[1], o[2]))
+        elif o[0] == "r":
+            lines.append("    return p%d;" % o[1])
+        else:
+            lines.append("    return 0;")
+    lines.append("}")
+    return "\n".join(lines) + "\n"
+
+
+def untyped(ops):
+    return " ".join({"a": "a%d", "f": "f%d", "u": "u%d", "r": "r%d"}[o[0]] % o[1] if o[0] in "afur" else "s%d,%d" % (o[1], o[2]) if o[0] == "s" else "z" for o in ops)
+
+
+def run_groups(ctx, res, drv, exe, nlibs):
+    why = group_loop_problem()
+    res.oblig("translate:Library-load-allocation-group-lookup", not why, "translation", why)
+    rng = ctx.rng
+    d = os.path.join(ctx.tmp, "groups")
+    os.makedirs(d, exist_ok=True)
+    std_path = os.path.join(core.REPO, "cfg", "std.cfg")
+    std_blocks = cfg_blocks(std_path)
+    libs = []
+    for c in load_corpus().get("libraries", []):
+        libs.append((c["blocks"], c.get("expect_key")))
+    for k in range(nlibs):
+        libs.append((gen_library(rng, std_blocks, k), None))
+    # shipped libraries with blocks that have several <dealloc> elements
+    shipped = [f for f in ("gtk.cfg", "windows.cfg", "posix.cfg", "gnu.cfg", "sqlite3.cfg", "zlib.cfg") if os.path.exists(os.path.join(core.REPO, "cfg", f))]
+    ops_h, ops_m, names_all = [], [], []
+    paths = []
+    for i, (blocks, _) in enumerate(libs):
+        path = os.path.join(d, "lib%d.cfg" % i)
+        open(path, "w").write(library_text(blocks))
+        paths.append(path)
+        names = sorted(set(n for b in std_blocks + blocks for n in b["allocs"] + [x for e in b["deallocs"] for x in e]))
+        ops_h.append("lib %s,%s ## %s" % (core.hx(std_path), core.hx(path), " ".join(names)))
+        ops_m.append("lib %s ## %s" % (blocks_wire(std_blocks + blocks), " ".join(names)))
+    for f in shipped:
+        fb = cfg_blocks(os.path.join(core.REPO, "cfg", f))
+        names = sorted(set(n for b in std_blocks + fb for n in b["allocs"] + [x for e in b["deallocs"] for x in e]))
+        ops_h.append("lib %s,%s ## %s" % (core.hx(std_path), core.hx(os.path.join(core.REPO, "cfg", f)), " ".join(names)))
+        ops_m.append("lib %s ## %s" % (blocks_wire(std_blocks + fb), " ".join(names)))
+    rc, impl, err = core.run_lines(exe, [os.path.join(core.REPO, "cfg", "std.cfg")], ops_h)
+    rc2, model, err2 = core.run_lines(drv, [], ops_m)
+    labels = ["lib#%d %s" % (i, blocks_wire(b)) for i, (b, _) in enumerate(libs)] + ["lib " + f for f in shipped]
+    core.correspond(ctx, res, "library-allocation-groups", labels, impl, model, nontrivial=lambda op, out: True)
+    # ---- leak tie under the generated libraries ------------------------------------------------------------------------------------
+    jobs = []
+    for i, (blocks, expect_key) in enumerate(libs):
+        allb = std_blocks + blocks
+        find = closure_groups(allb)
+        groups = {}
+        for b in allb:
+            for n in b["allocs"]:
+                groups.setdefault(find(("a", n)), ([], []))[0].append(n)
+            for e in b["deallocs"]:
+                for n in e:
+                    groups.setdefault(find(("d", n)), ([], []))[1].append(n)
+        def callable_(n, alloc):
+            return n.startswith("ua" if alloc else "ud") or (n in STD_CALL if alloc else n in ("free", "fclose"))
+        usable = [([n for n in g[0] if callable_(n, True)], [n for n in g[1] if callable_(n, False)]) for g in groups.values()]
+        usable = [g for g in usable if g[0] and g[1]]
+        user = [g for g in usable if any(n.startswith("ua") for n in g[0])]
+        progs = []
+        mg = next((g for g in usable if "malloc" in g[0]), None)
+        if mg:
+            progs.append(("single", [("a", 0, "malloc"), ("f", 0, "free"), ("z",)], mg))        # the plain malloc / free function
+        for _ in range(5):
+            if not user:
+                break
+            g = rng.choice(user)
+            A, D = g[0], g[1]
+            base = gen_leak(rng, safe=True)
+            ops = []
+            for o in base:
+                if o[0] == "a": ops.append(("a", int(o[1:]), rng.choice(A)))
+                elif o[0] == "f": ops.append(("f", int(o[1:]), rng.choice(D)))
+                elif o[0] == "u": ops.append(("u", int(o[1:])))
+                elif o[0] == "s": ops.append(("s",) + tuple(int(x) for x in o[1:].split(",")))
+                elif o[0] == "r": ops.append(("r", int(o[1:])))
+                else: ops.append(("z",))
+            progs.append(("single", ops, g))
+        if len(usable) >= 2:
+            for _ in range(2):
+                g1, g2 = rng.sample(usable, 2)
+                progs.append(("mixed", [("a", 0, rng.choice(g1[0])), ("f", 0, rng.choice(g2[1])), ("z",)], None))
+        jobs.append((i, blocks, progs, find, expect_key))
+    def one(job):
+        i, blocks, progs, find, expect_key = job
+        protos = "#include <stdlib.h>\n#include <stdio.h>\n#include <string.h>\n"
+        for b in blocks:
+            for n in b["allocs"]:
+                protos += "char *%s(void);\n" % n
+            for e in b["deallocs"]:
+                for n in e:
+                    if n.startswith("ud"):
+                        protos += "void %s(char *);\n" % n
+        text, starts = protos, []
+        for k, (kind, ops, g) in enumerate(progs):
+            starts.append(text.count("\n") + 1)
+            text += typed_function(ops, "f%d" % k, None) + "\n"
+        path = os.path.join(d, "t%d.c" % i)
+        open(path, "w").write(text)
+        fs = cppcheck_xml(ctx, path, ["--library=" + paths[i]])
+        return fs, starts, text
+    with ThreadPoolExecutor(WORKERS) as ex:
+        outs = list(ex.map(one, jobs))
+    corr_ops, corr_impl, corr_model_in = [], [], []
+    for (i, blocks, progs, find, expect_key), (fs, starts, text) in zip(jobs, outs):
+        if fs is None:
+            res.oblig("groups:cppcheck-runs", False, "machinery", "cppcheck could not be executed")
+            return
+        for k, (kind, ops, g) in enumerate(progs):
+            lo, hi = starts[k], starts[k] + 3 + len(ops)
+            mine = [f for f in fs if lo <= f["line"] <= hi and f["severity"] == "error" and (f["id"] in LEAK_IDS or f["id"] == "mismatchAllocDealloc")]
+            mism = [f for f in mine if f["id"] == "mismatchAllocDealloc"]
+            ftext = typed_function(ops, "f", None)
+            if kind == "single":
+                got = ["%s:%s@%d" % (LEAK_IDS[f["id"]], f["symbol"][1:], f["line"] - lo - 3) for f in mine if f["id"] in LEAK_IDS]
+                corr_ops.append("leak %s #lib%d" % (untyped(ops), i))
+                corr_impl.append(";".join(got) if got else "-")
+                corr_model_in.append("leak " + untyped(ops))
+                for f in mism:
+                    res.violation("with --library=<generated> cppcheck reports (error) mismatchAllocDealloc for `%s` although every allocator and "
+                                  "deallocator of the function belongs to one declared group\n%s%s" % (f["symbol"], library_text(blocks), ftext),
+                                  dict(kind="groups", blocks=blocks, ops=[list(o) for o in ops], finding="mismatchAllocDealloc:%s@%d" % (f["symbol"][1:], f["line"] - lo - 3),
+                                       key=expect_key), concrete=True, key=expect_key)
+            else:
+                a, f_ = ops[0], ops[1]
+                differ = find(("a", a[2])) != find(("d", f_[2]))
+                res.count("mixed-groups:" + ("reported" if mism else "silent"))
+                if mism and not differ:
+                    res.violation("mismatchAllocDealloc for an allocator / deallocator pair of one declared group\n%s%s" % (library_text(blocks), ftext),
+                                  dict(kind="groups", blocks=blocks, ops=[list(o) for o in ops], finding="mismatchAllocDealloc", key=expect_key), concrete=True, key=expect_key)
+            res.case("groups|%s|%s" % (blocks_wire(blocks), ftext), bool(mine), dict(tie="leak-under-library", library=blocks_wire(blocks), function=ftext[:300]) if len(res.samples) < 12 and k == 1 and i % 7 == 0 else None)
+    rc, model, err = core.run_lines(drv, [], corr_model_in)
+    core.correspond(ctx, res, "leak-under-generated-library", corr_ops, corr_impl, model, nontrivial=lambda op, out: out != "-")
+    res.extra["generated_libraries"] = len(libs)
+
+
+
 def classify_ub(f, x, lo):
     """F04d: zerodiv on the statement guarded by `if (ok)` of the flag idiom `int d = 0; int ok = 0; if (..) { d = K; ok = 1; } if (ok) .. / d`
     (the zero of `d` is a Possible value without condition; the correlation with the flag is lost under an enclosing relational test)"""
@@ -767,6 +1029,8 @@ def run(ctx, res):
     mark("leak correspondence")
     run_leak_pimpl(ctx, res, drv, 1200 if thorough else 250)
     mark("leak P_impl")
+    run_groups(ctx, res, drv, exe, 200 if thorough else 30)
+    mark("allocation groups + leak tie under generated libraries")
     opts = [[], ["--enable=warning,portability", "--inconclusive"]]
     if thorough:
         for _ in range(8):
